@@ -37,6 +37,12 @@ func extractAll(root string, o *out) {
 	// source-order trace of lock operations and accesses to `samples` in the bodies of the sliding
 	// window's cleaner, Add and Samples ("Lock" "Unlock" "RLock" "RUnlock" "deferUnlock" "R" "W"):
 	// the sequential window model is the code only if each body is one critical section
+	// the reader acquisition: pointer read, reference count increment (db.NewReader) and generation
+	// read must all happen inside one shared section of reloadMu
+	o.strs("dnsserver_acquireReaderGen_trace", lockTrace(dnsserver, "FBDNSDB.acquireReaderGen", "reloadMu", "dnsdb", "NewReader"))
+	// the reload: everything from reading the served DB through db.Reload, the pointer swap and the
+	// cache purge inside one exclusive section of reloadMu
+	o.strs("dnsserver_Reload_trace", lockTrace(dnsserver, "FBDNSDB.Reload", "reloadMu", "dnsdb", "Reload", "Purge"))
 	o.sb.WriteString("\n/-! metrics/swindow.go -/\n")
 	metrics := load(root, "metrics")
 	for _, fn := range []string{"cleaner", "Add", "Samples"} {
@@ -46,7 +52,7 @@ func extractAll(root string, o *out) {
 
 // lockTrace lists, in source order, the calls <x>.<mutex>.{Lock,Unlock,RLock,RUnlock} (a deferred
 // call is prefixed "defer") and the reads ("R") / writes ("W") of <x>.<field> in function fn.
-func lockTrace(p *pkgInfo, fn, mutex, field string) []string {
+func lockTrace(p *pkgInfo, fn, mutex, field string, calls ...string) []string {
 	fd := p.funcDecl(fn)
 	type ev struct {
 		pos token.Pos
@@ -67,6 +73,11 @@ func lockTrace(p *pkgInfo, fn, mutex, field string) []string {
 			deferred[x.Call] = true
 		case *ast.CallExpr:
 			if se, ok := x.Fun.(*ast.SelectorExpr); ok {
+				for _, c := range calls {
+					if se.Sel.Name == c {
+						evs = append(evs, ev{x.End(), "call:" + c}) // after its arguments
+					}
+				}
 				if in, ok := se.X.(*ast.SelectorExpr); ok && in.Sel.Name == mutex {
 					name := se.Sel.Name
 					if deferred[x] {
